@@ -315,3 +315,44 @@ def adjusted_fc_agreement(chk, prog, rule: str):
             chk.violation(rule, f"{a.module}:{a.qualname}", construct,
                           f"the two implementations differ: only daily {only_a}; only initialisation {only_b} - the adjusted field capacity of day 1 "
                           "differs from the one the initial water content was laid out with", loc=a.loc())
+
+
+# --------------------------------------------------------------------------------------------- CO2 factor: first season vs season reset
+
+CO2_NAMES = ("fw", "fCO2old", "fshape", "CO2rel", "fCO2new", "ftype")
+
+
+def _defs_of(fn_node: ast.AST, names):
+    from ..model import norm_anon
+    out = {}
+    for a in ast.walk(fn_node):
+        if isinstance(a, ast.Assign) and isinstance(a.targets[0], ast.Name) and a.targets[0].id in names:
+            out.setdefault(a.targets[0].id, set()).add(norm_anon(a.value))
+        if isinstance(a, ast.Assign) and isinstance(a.targets[0], ast.Attribute) and a.targets[0].attr == "fCO2":
+            out.setdefault("<crop>.fCO2", set()).add(norm_anon(a.value))
+    return out
+
+
+def co2_factor_agreement(chk, prog, rule: str):
+    """the CO2 adjustment of the water productivity is computed for the first season by compute_variables and for every later season
+    by reset_initial_conditions; a single-season run started at season k uses the former, the multi-season run the latter: the defining
+    expressions of the weighting factor, the old and new coefficients, the shape factor, the crop-type factor and the final
+    adjustment must be the same sets of expressions (object names anonymised)"""
+    a = prog.find_func("compute_variables")
+    b = prog.find_func("reset_initial_conditions")
+    da, db = _defs_of(a.node, CO2_NAMES), _defs_of(b.node, CO2_NAMES)
+    chk.fn(a.key); chk.fn(b.key)
+    n = 0
+    for nm in list(CO2_NAMES) + ["<crop>.fCO2"]:
+        xa, xb = da.get(nm, set()), db.get(nm, set())
+        if not xa or not xb:
+            raise AnalysisError(f"CO2 factor: {nm} is no longer defined in both compute_variables and reset_initial_conditions")
+        n += 1
+        construct = f"{nm}: first-season vs season-reset definitions"
+        if xa == xb:
+            chk.ok(rule, f"{b.module}:{b.qualname}", construct, f"{len(xa)} expression(s), identical")
+        else:
+            chk.violation(rule, f"{b.module}:{b.qualname}", construct,
+                          f"the season reset computes {nm} as {sorted(xb - xa)} where the first-season initialisation has {sorted(xa - xb)}: season k of a "
+                          "multi-season run gets a different CO2 adjustment than a single-season run started at its planting date", loc=b.loc())
+    return n
